@@ -96,7 +96,7 @@ func parseBatch(c *core.Ctx, inputs [][]byte, tree bool) ([]*parseOut, []string)
 // cliParse judges one input through the real CLI.
 func cliParse(c *core.Ctx, in []byte) (acc bool, abn string, res *runner.Result) {
 	// all three input paths take turns (chosen by the input itself, so a replay takes the same path)
-	h := hashBytes(in) % 9
+	h := hashBytes(in) % 12
 	if h == 8 && !runner.PtyTypable(in) {
 		h = 0
 	}
@@ -130,6 +130,50 @@ func cliParse(c *core.Ctx, in []byte) (acc bool, abn string, res *runner.Result)
 	case 8:
 		// typed on a terminal
 		res = c.Crd.Run(runner.Opt{Stdin: stdinIn, StdinKind: "pty"}, "text", "parse")
+	case 9:
+		// FILE reached through a symbolic link and "..": cur -> lib/album, cur/../c04.txt is lib/c04.txt (what the
+		// operating system opens), not ./c04.txt (what a lexical clean-up of the path would name)
+		root := c.Scratch.Path("c04-links")
+		os.MkdirAll(filepath.Join(root, "lib", "album"), 0o755)
+		os.Symlink(filepath.Join("lib", "album"), filepath.Join(root, "cur"))
+		os.WriteFile(filepath.Join(root, "lib", "c04.txt"), in, 0o644)
+		os.WriteFile(filepath.Join(root, "c04.txt"), []byte("C[1] this is another file ]["), 0o644)
+		if hashBytes(in)/16%2 == 0 {
+			res = c.Crd.Run(runner.Opt{Stdin: []byte{}, Dir: root}, "text", "parse", "cur/../c04.txt")
+		} else {
+			res = run(c, nil, "text", "parse", root+"/cur/../c04.txt") // (filepath.Join would clean the path itself)
+		}
+	case 10:
+		// -o names a file that already holds this very tree followed by more (the tree of a longer text starts
+		// with the tree of its beginning): afterwards it holds the tree and nothing else
+		ref := run(c, in, "text", "parse")
+		if ref.WallKill || ref.StartErr != nil || !ref.OK() || abnormal(ref) != "" {
+			res = ref
+			break
+		}
+		out := c.Scratch.File("c04-tree.yml", append(append([]byte{}, ref.Stdout...), []byte("    - rest:\n        type: 57359\n")...))
+		res = run(c, in, "text", "parse", "-o", out)
+		if res.OK() {
+			if got := readFileOrNil(out); !bytes.Equal(got, ref.Stdout) {
+				return false, fmt.Sprintf("leaves %d bytes in an -o file that held the same tree followed by more; the tree has %d bytes", len(got), len(ref.Stdout)), res
+			}
+			res.Stdout = ref.Stdout
+		}
+	case 11:
+		// the text ends in a read error (EIO) instead of an end of input: whatever arrived, that is no sentence
+		if len(in) > 0 {
+			bad := c.Crd.Run(runner.Opt{Stdin: stdinIn, StdinKind: "eio"}, "text", "parse")
+			if bad.WallKill || bad.StartErr != nil {
+				return false, "infra", bad
+			}
+			if a := abnormal(bad); a != "" {
+				return false, a + " (standard input ending in a read error)", bad
+			}
+			if bad.OK() {
+				return false, "accepts a text whose reading ended in an I/O error (EIO)", bad
+			}
+		}
+		res = run(c, in, "text", "parse")
 	default:
 		res = run(c, nil, "text", "parse", c.Scratch.File("c04.txt", in))
 	}
